@@ -41,6 +41,13 @@ def _steps(pos):
 
 def run(case):
     path = np.array(case['path'], float)
+    rigid = np.array(case['rigid'], float)  # (T, 3), rigid[0] == 0
+    if case.get('tile', 1) > 1:
+        # a long run: the generated motion repeated end to end (per-frame steps are unchanged)
+        st_, rs_ = np.diff(path, axis=0), np.diff(rigid, axis=0)
+        k = case['tile']
+        path = np.concatenate([path[:1], path[:1] + np.cumsum(np.tile(st_, (k, 1, 1)), axis=0)], axis=0)
+        rigid = np.concatenate([rigid[:1], np.cumsum(np.tile(rs_, (k, 1)), axis=0)], axis=0)
     T, N, _ = path.shape
     M = np.array(case['lattice']['matrix'], float)
     symbols = case['symbols']
@@ -60,7 +67,6 @@ def run(case):
             ref_syms = kinds[k:]
     ref_idx = [i for i, s in enumerate(symbols) if s in ref_syms]
     assert ref_idx, 'generator guarantees a non-empty reference set'
-    rigid = np.array(case['rigid'], float)  # (T, 3), rigid[0] == 0
     kw = _kwargs(case, ref_syms, float_syms)
 
     def make(p):
@@ -158,6 +164,8 @@ def drift_cases(draw, tier):
     c['ref_order'] = draw(st.permutations(list(range(6))))
     c['form'] = draw(st.sampled_from(['wrapped', 'unwrapped']))
     c['touch_first'] = draw(st.booleans())
+    c['species_kind'] = draw(st.sampled_from(['Species', 'Element', 'Species-oxi']))
+    c['tile'] = draw(st.sampled_from([1, 1, 1, 1, 130, 260])) if T >= 9 else 1
     return c
 
 
